@@ -605,27 +605,33 @@ pub fn generate(profile: &str, variant: &str, seed: u64, index: u64) -> SimScena
         "C15" => {
             // one target, several installs: chunk-exhaustive fakes are driven by `index`
             opts.n_targets = 1;
+            // mode 0: chunk sweep (32 installs); 1: seeded fakes; 2: displacement steering through a
+            // one-free-page neighbourhood; 3: the same under a buggified kernel
             let mode = index % 4;
-            opts.hood_class = Some(if mode == 3 { 2 } else { 0 });
+            opts.hood_class = Some(if mode >= 2 { 2 } else { 0 });
             opts.offset_class = Some(*rng.pick(&[0, 1, 2, 3, 4, 5]));
             if mode == 3 {
                 buggify_kernel(&mut rng, &mut pol, &mut classes, true);
             }
             let l = gen_layout(&mut rng, arch, os, &pol, &opts);
             let mut ops = Vec::new();
-            // 32 installs per scenario: position = (index/4) % 4, chunk block = index / 16
+            // position = (index/4) % 4, chunk block = index / 16: 32768 scenarios sweep all 4 x 65536
             let pos = ((index / 4) % 4) as u32;
             let block = index / 16;
             let base = rng.next_u64();
-            let n_inst = if mode == 3 { 3 } else { 32u64 };
+            let n_inst = match mode {
+                0 => 32u64,
+                1 => 4,
+                _ => 2,
+            };
             for i in 0..n_inst {
                 let chunk = (block * 32 + i) & 0xFFFF;
-                let fake = if mode < 3 {
+                let fake = if mode == 0 {
                     (base & !(0xFFFFu64 << (16 * pos))) | (chunk << (16 * pos))
                 } else {
                     gen_fake64(&mut rng, l.hole, &mut Vec::new())
                 };
-                let kind = if i % 16 == 15 { "boolean" } else { "raw" };
+                let kind = if i % 16 == 15 || (mode == 1 && i == 3) { "boolean" } else { "raw" };
                 ops.push(Install { target: 0, kind: kind.into(), fake: fake.max(1), value: i % 32 == 15 });
             }
             classes.push(format!("mode{mode}-pos{pos}"));
